@@ -56,6 +56,20 @@ func (c09) Gen(tier string, seed int64, emit func([]Ev)) {
 				}
 			}
 			h = append(h, Ev{"op": "encode", "how": "decode", "src_abs": s.ev(), "src": B(s.section()), "order": order, "foreign": foreign})
+			if kind == "insert" && len(s.Cmd.Comps) > 0 && !s.Cmd.Cancel {
+				for q := 1 + r.Intn(3); q > 0; q-- {
+					e := Ev{"op": "set", "target": "cmd", "k": r.Intn(4), "fresh": r.Intn(4) == 0}
+					switch r.Intn(3) {
+					case 0:
+						e["field"], e["arg"] = "ins.comp.tag", r.Intn(256)
+					case 1:
+						e["field"], e["arg"] = "ins.comp.haspts", r.Intn(2) == 0
+					default:
+						e["field"], e["arg"] = "ins.comp.pts", W64(c09Arg33(r, true))
+					}
+					h = append(h, e)
+				}
+			}
 		} else {
 			kind = []string{"null", "time", "time", "insert", "insert"}[r.Intn(5)]
 			nseg = r.Intn(3)
@@ -89,7 +103,20 @@ func (c09) Gen(tier string, seed int64, emit func([]Ev)) {
 						e["field"], e["arg"] = "cmd.pts", W64(c09Arg33(r, true))
 					}
 				} else {
-					switch r.Intn(13) {
+					switch r.Intn(16) {
+					case 13, 14, 15:
+						// the components of a component-mode splice_insert are edited in place through the
+						// Components() list (entries have setters; an entry can be replaced by CreateComponent())
+						e["k"] = r.Intn(4)
+						e["fresh"] = r.Intn(4) == 0
+						switch r.Intn(3) {
+						case 0:
+							e["field"], e["arg"] = "ins.comp.tag", r.Intn(256)
+						case 1:
+							e["field"], e["arg"] = "ins.comp.haspts", r.Intn(2) == 0
+						default:
+							e["field"], e["arg"] = "ins.comp.pts", W64(c09Arg33(r, true))
+						}
 					case 0:
 						e["field"], e["arg"] = "ins.eid", eid4(rndEid(r))
 					case 1:
@@ -426,6 +453,33 @@ func c09Set(e Ev, st *c09State) {
 		case "ins.immediate":
 			ci.SetSpliceImmediate(GBool(arg))
 			e["got"] = ci.SpliceImmediate()
+		case "ins.comp.tag", "ins.comp.haspts", "ins.comp.pts":
+			cs := ci.Components()
+			e["nocomp"] = len(cs) == 0
+			if len(cs) == 0 {
+				e["got"] = arg // nothing to edit: the call is not made
+				break
+			}
+			k := GI(e["k"]) % len(cs)
+			e["k"] = k
+			if GBool(e["fresh"]) {
+				nc := scte35.CreateComponent()
+				nc.SetComponentTag(cs[k].ComponentTag())
+				nc.SetHasPTS(cs[k].HasPTS())
+				nc.SetPTS(cs[k].PTS())
+				cs[k] = nc
+			}
+			switch f {
+			case "ins.comp.tag":
+				cs[k].SetComponentTag(byte(GI(arg)))
+				e["got"] = int(ci.Components()[k].ComponentTag())
+			case "ins.comp.haspts":
+				cs[k].SetHasPTS(GBool(arg))
+				e["got"] = ci.Components()[k].HasPTS()
+			default:
+				cs[k].SetPTS(gots.PTS(UW64(arg)))
+				e["got"] = W64(uint64(ci.Components()[k].PTS()))
+			}
 		}
 	default: // seg:<k>
 		var k int
